@@ -185,8 +185,22 @@ class Exec(Engine):
                 return v
 
             def visit_ListComp(self, n):
+                # the first generator's iterable is evaluated once, before anything else: it may be hoisted
+                g0 = n.generators[0]
+                self.depth += 1
+                g0.iter = self.visit(g0.iter)
+                self.depth -= 1
+                saved = g0.iter
+                g0.iter = ast.Constant(value=None)
+                try:
+                    self._guard(n)
+                finally:
+                    g0.iter = saved
+                return n
+            visit_SetComp = visit_DictComp = visit_GeneratorExp = visit_ListComp
+
+            def visit_Lambda(self, n):
                 return self._guard(n)
-            visit_SetComp = visit_DictComp = visit_GeneratorExp = visit_Lambda = visit_ListComp
 
         h = Hoist()
         if isinstance(stmt, ast.Expr):
@@ -814,17 +828,38 @@ class Exec(Engine):
         return outs
 
     def st_With(self, s, st):
+        """`with` over trusted transparent managers and over file handles (the handle's close is part of the FS model)."""
+        states = [st]
+        outs = []
         for item in s.items:
             ce = item.context_expr
             name = ast.unparse(ce.func) if isinstance(ce, ast.Call) else ast.unparse(ce)
-            if isinstance(ce, ast.Name) and st.has(ce.id) and st.get(ce.id).t.k == 'u' and st.get(ce.id).t.name in getattr(self.R, 'file_sorts', ()):
-                continue   # `with handle:` on an already opened file handle; close is modelled by the FS contract
+            if isinstance(ce, ast.Name) and st.has(ce.id) and st.get(ce.id).t.k == 'u' and st.get(ce.id).t.name in self.R.file_sorts:
+                continue   # `with handle:` on an already opened file handle
             if name.split('.')[-1] in self.R.transparent_cms or name in self.R.transparent_cms:
                 if item.optional_vars is not None:
                     raise Unsupported('with ... as on transparent manager')
                 continue
+            if isinstance(ce, ast.Call):
+                nxt = []
+                for cur in states:
+                    for o in self.exec_call(ce, cur, want_value=True):
+                        if o.kind != 'next':
+                            outs.append(o)
+                            continue
+                        if o.val is None or o.val.t.k != 'u' or o.val.t.name not in self.R.file_sorts:
+                            raise Unsupported(f'with {name}: not a file handle')
+                        if item.optional_vars is not None:
+                            for r in self.assign_to(item.optional_vars, o.val, o.st, s.lineno):
+                                (nxt if r.kind == 'next' else outs).append(r.st if r.kind == 'next' else r)
+                        else:
+                            nxt.append(o.st)
+                states = nxt
+                continue
             raise Unsupported(f'with {name}')
-        return self.exec_block(s.body, st)
+        for cur in states:
+            outs += self.exec_block(s.body, cur)
+        return outs
 
     def st_FunctionDef(self, s, st):
         st.set(s.name, SV(T('closure'), s))
@@ -1412,6 +1447,25 @@ class Exec(Engine):
 
     def run_for(self, s, st: State, itv: SV, loop_id):
         ctx = self.ctx
+        if itv.t.k == 'pylist':
+            # constant-length literal list: unrolled
+            outs, live = [], [st]
+            for elem in itv.z:
+                nxt = []
+                for cur in live:
+                    for r in self.assign_to(s.target, elem, cur, s.lineno):
+                        if r.kind != 'next':
+                            outs.append(r)
+                            continue
+                        for bo in self.exec_block(s.body, r.st):
+                            if bo.kind in ('next', 'continue'):
+                                nxt.append(bo.st)
+                            elif bo.kind == 'break':
+                                outs.append(Outcome('next', bo.st))
+                            else:
+                                outs.append(bo)
+                live = nxt
+            return outs + [Outcome('next', x) for x in live]
         if itv.t.k == 'genobj':
             return self.run_for_generator(s, st, itv, loop_id)
         ev0 = Evaluator(self, st)
